@@ -16,12 +16,29 @@ is evaluated on the model state; a failure is reported as `MODEL-SPEC-MISMATCH`.
 -/
 namespace ArrowModel.C16
 open ArrowModel.Proto
+open ArrowModel.Generated.C16
 
 def parseOp (s : String) : Option Op :=
   let f := s.splitOn ":"
   let ns := f.drop 1 |>.map String.toNat?
   match f.head?, ns with
   | some "av", [some d, some len, some cap, some t, some seed] => some (.allocVec d len cap t seed)
+  -- `Buffer::from_slice_ref` / `From<&[u8]>`: MutableBuffer::with_capacity(len) + extend, frozen
+  | some "as", [some d, some len, some seed] =>
+    some (.allocGen d len (roundUp len WITH_CAPACITY_ROUND) ALIGNMENT_X86_64 seed false false)
+  -- `MutableBuffer::from_len_zeroed(len)`: capacity exactly `len`
+  | some "az", [some d, some len] => some (.allocGen d len len ALIGNMENT_X86_64 0 true true)
+  | some "rs", [some i, some n, some val] => some (.resize i n val)
+  | some "mc", [some i] => some (.truncate i 0)
+  | some "sf", [some i] => some (.shrinkBuf i)
+  | some "ms", [some i] => some (.shrinkMut i)
+  | some "bm", [some i, some j] => some (.binaryMut i j)
+  | some "u2", [some v, some n, some delta] => some (.unaryMut2 v n delta)
+  -- trailing `how` fields select which public entry point the harness calls; same effect
+  | some "sl", [some i, some d, some off, some len, some _] => some (.slice i d off len)
+  | some "wp", [some i, some d, some off, some len, some _] => some (.wrap i d off len)
+  | some "um", [some i, some delta, some _] => some (.unaryMut i delta)
+  | some "im", [some i, some _] => some (.intoMutable i)
   | some "am", [some d, some len, some cap, some seed] => some (.allocMut d len cap seed)
   | some "ac", [some d, some len, some seed] => some (.allocCustom d len seed)
   | some "cl", [some i, some d] => some (.clone i d)
@@ -42,22 +59,29 @@ def parseOp (s : String) : Option Op :=
   | some "um", [some i, some delta] => some (.unaryMut i delta)
   | some "ba", _ =>
     match f with
-    | [_, i, j, op, boff, blen] =>
+    | _ :: i :: j :: op :: boff :: blen :: _ =>
       let bop : Option BitOp := match op with | "a" => some .and | "o" => some .or | "x" => some .xor | _ => none
       match i.toNat?, j.toNat?, bop, boff.toNat?, blen.toNat? with
       | some i, some j, some bop, some boff, some blen => some (.bitAssign i j bop boff blen)
       | _, _, _, _, _ => none
     | _ => none
+  | some "rt", _ =>
+    match f with
+    | _ :: srcs :: _ =>
+      match (srcs.splitOn "+").mapM String.toNat? with
+      | some srcs => some (.roundTrip srcs)
+      | none => none
+    | _ => none
   | some "xf", _ =>
     match f with
-    | [_, srcs, d] =>
+    | _ :: srcs :: d :: _ =>
       match (srcs.splitOn "+").mapM String.toNat?, d.toNat? with
       | some srcs, some d => some (.exportFfi srcs d)
       | _, _ => none
     | _ => none
   | some "if", _ =>
     match f with
-    | [_, i, dsts] =>
+    | _ :: i :: dsts :: _ =>
       match i.toNat?, (if dsts = "-" then some [] else (dsts.splitOn "+").mapM String.toNat?) with
       | some i, some dsts => some (.importFfi i dsts)
       | _, _ => none
@@ -66,10 +90,15 @@ def parseOp (s : String) : Option Op :=
 
 def digest (bs : List Nat) : Nat := bs.foldl (fun acc b => (acc * 31 + b + 1) % 1000003) 7
 
+def regionOf (s : State) (r : Nat) : Region :=
+  (s.regions[r]?).getD (mkRegion [] 0 (.standard 0))
+
+/-- what is visible of a slot: kind, length, content digest, and for a `Buffer` its
+`strong_count()`, `ptr_offset()` and `capacity()` (for a `MutableBuffer` its `capacity()`) -/
 def showSlot (s : State) : Slot → String
   | .empty => "e"
-  | .buf h => s!"b{h.len}.{digest (view s h)}"
-  | .mut r l => s!"m{l}.{digest ((regionBytes s r).take l)}"
+  | .buf h => s!"b{h.len}.{digest (view s h)}.c{(regionOf s h.region).rc}.o{h.off}.k{(regionOf s h.region).cap}"
+  | .mut r l => s!"m{l}.{digest ((regionBytes s r).take l)}.k{(regionOf s r).cap}"
   | .ffi _ => "x"
 
 def showOut : Out → String
